@@ -296,6 +296,38 @@ def run(ctx):
         if need not in everything:
             raise Vacuous(f"no learn step directly {need} in the life-cycle scripts")
 
+    # ---- RainbowDQN: "the quantity minimised is the loss defined by the algorithm with target r + gamma^n (1 - done) z": the
+    # loss learn() works with is validated against the C51 specification (the specification and trace format of C18) on
+    # real learn() calls, including targets that reach the top of the support (seed C08-g)
+    from . import c18
+    from ..drive import c51
+    rb_traces = []
+    rb_shapes = [(5, 1, 4), (11, -5, 8), (4, -3, 3)] + ([] if quick else [(2, 0, 1), (21, -20, 16), (7, 2, 5)])
+    jj = 0
+    for si, (N_, vmin_, B_) in enumerate(rb_shapes):
+        for vi, (nstep_, combined_, per_) in enumerate(c18.VARIANTS):
+            if quick and (vi + si) % 2:
+                continue
+            gq_, n_ = [(16, 2), (16, 3), (8, 1), (24, 1)][(jj + ctx.seed) % 4]
+            opt = c18.learn_options(jj + ctx.seed, [1.0, 2.0][jj % 2])
+            rb_traces.append(c51.run_learn(N=N_, vmin=vmin_, B=B_, gammaq=gq_, n=n_, nstep=nstep_, combined=combined_, per=per_,
+                                           q=c18.Q_T, pden=c18.PDEN_T, seed=ctx.seed * 7919 + jj, learns=2, **opt))
+            ctx.case(("rainbow-loss", N_, vmin_, B_, gq_, n_, nstep_, combined_, per_, jj))
+            jj += 1
+    for fi, (v_min_, v_max_, N_, B_) in enumerate(c18.TOP_SUPPORTS_Q if quick else c18.TOP_SUPPORTS_T):
+        for vi in ([1, 2] if quick else range(6)):
+            nstep_, combined_, per_ = c18.VARIANTS[vi]
+            gq_, n_ = [(16, 2), (24, 1), (16, 3)][(fi + vi) % 3]
+            opt = c18.learn_options(jj, 1.0)
+            opt.pop("scale"), opt.pop("shift")
+            opt["rdtype"] = "f32"
+            rb_traces.append(c51.run_learn(N=N_, vmin=0, B=B_, gammaq=gq_, n=n_, nstep=nstep_, combined=combined_, per=per_, q=c18.Q_T,
+                                           pden=c18.PDEN_T, seed=ctx.seed * 7919 + jj, vrange=(v_min_, v_max_), top=1, **opt))
+            ctx.case(("rainbow-loss-top", v_min_, v_max_, N_, B_, gq_, n_, nstep_, combined_, per_, jj))
+            jj += 1
+    ctx.extra["rainbow_loss_traces"] = len(rb_traces)
+    ctx.validate("C51_Trace", c18.TRACE_CFG, rb_traces, sig=lambda t, v: "bellman:rainbow-loss:" + c18.sig(t, v), what=c18.what, chunk=60)
+
     ctx.assume("tabular custom networks (EvolvableModule, table lookup on one-hot observations, table = nn.Parameter) stand for 'every "
                "network': the networks' forward passes are inputs of the property; table entries in 1/2, rewards integers, gamma in "
                "{0, 1/2, 1}, B a power of two: every float32 operation of the target and the loss is exact, comparison is equality")
